@@ -22,7 +22,7 @@ def run():
         specs = [s for s in specs if any(k in s["name"] for k in keep)]
     fspecs = pp.specs("ffim", "c17", "c17_fail")
     if tier() == "quick":
-        fspecs = [s for s in fspecs if not any(k in s["name"] for k in ("tokens_n0", "ff_out1_n0", "ff_out2_n2", "mask_v32", "mask_v31"))]
+        fspecs = [s for s in fspecs if not any(k in s["name"] for k in ("tokens_n0", "ff_out1_n0", "ff_out2_n2", "mask_v33_d3", "mask_v31"))]
     specs += fspecs
     info = run_parser_groups("C17", "c17", ["ffi", "ffim"], specs, out, harness_timeout_s=600, mem_gb=40)
     cov = e1_coverage(out, [dict(harness=s["name"]) for s in specs[:8]],
